@@ -83,6 +83,8 @@ def run(ctx):
     check_str_slices(ctx, ctx.program("MAX"))
     from .c01_unwraps import check_unwraps
     check_unwraps(ctx, ctx.program("MAX"))
+    from .c01_index import check_indexing
+    check_indexing(ctx, ctx.program("MAX"))
     for cname in ctx.configs():
         prog = ctx.program(cname)
         tag = "" if cname == "MAX" else "[%s]" % cname
